@@ -25,6 +25,9 @@ func importFS(text string) map[string]string {
 	return map[string]string{
 		"index.d2": text, "foo.d2": importedBody, "bar.d2": importedBody, "dir/foo.d2": importedBody,
 		"lib/foo.d2": importedBody, "dir/sub/foo.d2": importedBody, "lib/sub/foo.d2": importedBody,
+		// directory and file names that are not plain keys
+		"v1.2/foo.d2": importedBody, "v1.2/sub/foo.d2": importedBody, "my dir/foo.d2": importedBody, "a#b/foo.d2": importedBody,
+		"v1.2/x.y.d2": importedBody,
 	}
 }
 
@@ -112,6 +115,15 @@ func ImportStep(text, path string, newPath *string) map[string]any {
 	return rec
 }
 
+// importSyntax writes an import path the way a user has to: quoted unless it is a plain key (after ./ ../)
+func importSyntax(p string) string {
+	rest := strings.TrimLeft(p, "./")
+	if strings.ContainsAny(rest, ".#: ;{}[]'\"") {
+		return "\"" + p + "\""
+	}
+	return p
+}
+
 var importForms = []string{
 	"x: @%s\n", "...@%s\n", "y: {\n  ...@%s\n}\n", "z: @%s.k\n", "w: Z {\n  ...@%s\n  style.fill: red\n}\n",
 	"v: {\n  u: @%s\n}\n", "t: @%s\nt.style.opacity: 0.4\n", "layers: {\n  l1: {\n    ...@%s\n  }\n}\n",
@@ -127,6 +139,9 @@ func RunImports(c *hl.Ctx, r *rand.Rand, n int) {
 		{"foo", "foo", str("bar")}, {"foo", "foo", nil}, {"dir/foo", "dir/foo", str("lib/foo")}, {"dir/foo", "dir/", str("lib/")},
 		{"dir/sub/foo", "dir/", str("lib/")}, {"dir/foo", "dir/foo", nil}, {"foo", "foo", str("dir/foo")}, {"foo", "nosuch", str("bar")},
 		{"foo.d2", "foo.d2", str("bar.d2")}, {"./foo", "./foo", str("./bar")},
+		{"dir/foo", "dir/foo", str("v1.2/foo")}, {"dir/foo", "dir/", str("v1.2/")}, {"dir/sub/foo", "dir/", str("v1.2/")},
+		{"foo", "foo", str("my dir/foo")}, {"dir/foo", "dir/", str("a#b/")}, {"v1.2/foo", "v1.2/", str("lib/")},
+		{"v1.2/foo", "v1.2/foo", str("bar")}, {"foo", "foo", str("v1.2/x.y")},
 	}
 	for i := 0; i < n; i++ {
 		cs := cases[r.Intn(len(cases))]
@@ -146,7 +161,7 @@ func RunImports(c *hl.Ctx, r *rand.Rand, n int) {
 			if r.Intn(5) == 0 {
 				imp = "bar" // an unrelated import that must survive
 			}
-			fmt.Fprintf(&sb, importForms[f], imp)
+			fmt.Fprintf(&sb, importForms[f], importSyntax(imp))
 		}
 		if r.Intn(2) == 0 {
 			sb.WriteString("a -> b: AB\n")
